@@ -17,8 +17,10 @@ import types
 from run import Broken, Violation
 from builders import c13b
 from builders.c13b import ET
+from props import c13_rtf
+from props import c13_slide
 
-GEN = ["Tables", "HtmlSkip"]
+GEN = ["Tables", "HtmlSkip", "TablesRtf"] + c13_slide.GEN
 RULE = ("abstract documents (paragraphs + tables 1..4 x 1..4, ragged rows, empty / multi-paragraph cells, adjacent tables, "
         "tables inside cells to depth 2, header rows) written to DOCX / PPTX / ODT / ODP / HTML / EPUB / RTF and read by the real "
         "read_*; sheets (typed values, gaps, repeats, duplicate / empty header names) written to XLSX / ODS and through stub "
@@ -34,9 +36,14 @@ ASSUMPTIONS = [
     "ODS: cells behind a collapsed run of more than 100 empty cells / rows are misplaced on the current code (open known finding "
     "ods.empty-repeat-shifts-cells; the earlier repair f0cc6e0 was withdrawn by d8d5030): the theorem is partial (NoWideGap), the oracle "
     "classifies a failing sheet as that finding only when it has such a gap in front of data AND the result is exactly the collapsed table",
-    "PPTX reading order on a slide (sort by position) and the ODP frame loop are tied by correspondence only",
-    "RTF table extraction (regex heuristics) is not modelled: oracle only",
-]
+    "RTF: the text handed to _extract_tables is what bytes.decode gives (no lone surrogates); decimal digits other than ASCII after \\u / in "
+    "control-word parameters, int() of more than 4300 digits and str.lower() changing the length of the text (U+0130) are not modelled "
+    "(not generated); the character classes \\w (>= 128), [a-z] under IGNORECASE, \\s are computed with the running interpreter's re module "
+    "over all code points by the generator and compared with the model by theorems",
+    "RTF: the theorems speak about cells of 'plain paragraphs' (no backslash / braces, single spaces between words, no 64 hex digits in a row, "
+    "BMP) and tables whose separating text satisfies the row-grouping heuristic; outside that region the extractor is tied to the model by "
+    "the correspondence, and the oracle reports the five open RTF findings by their mechanism",
+] + c13_slide.ASSUMPTIONS
 TRUSTED = ["S2T/Model/Tables.lean as a transcription of the walkers (tied by this correspondence)",
            "harness/builders/c13b.py reference writers and ground truth (search oracle)"]
 
@@ -1300,23 +1307,14 @@ def _corr_dim(ctx):
 
 
 def _corr_rtf(ctx):
-    """RTF table extraction is regex heuristics and has no Lean model: the written tables are compared with what
-    read_rtf returns (tables kept apart by a long paragraph: the open finding rtf.adjacent-tables-merged is
-    replayed separately)"""
-    broken = []
-    for _ in range(ctx.n(40, 600)):
-        case = gen_rtf_case(ctx.rng)
-        vs = oracle("rtf", case)
-        ctx.case(("rtf", json.dumps(case)))
-        ctx.count("rtf/written-tables")
-        if vs and len(broken) < 5:
-            broken.append(Broken("correspondence", "truth:rtf", vs[0].what, case={"fmt": "rtf", "blocks": case["blocks"]}))
-    return broken
+    """RTF: S2T.Model.TablesRtf against the real _RtfParser on written documents and on the token stream (c13_rtf.corr)"""
+    return c13_rtf.corr(ctx, lambda data: _read("rtf", data))
 
 
 def correspondence(ctx):
     broken = []
-    for part in (_corr_xml, _corr_html, _corr_lean_html_epub, _corr_epub, _corr_xlsx, _corr_ods, _corr_xls, _corr_dim, _corr_rtf):
+    for part in (_corr_xml, _corr_html, _corr_lean_html_epub, _corr_epub, _corr_xlsx, _corr_ods, _corr_xls, _corr_dim, _corr_rtf,
+                 c13_slide.corr):
         broken += part(ctx)
     ctx.coverage["mismatches"] = len(broken)
     return {"broken": broken, "violations": []}
@@ -1362,6 +1360,8 @@ def _canon_grids(gs):
 
 def oracle(fmt, case):
     """-> [Violation]; `case` is JSON-serialisable"""
+    if fmt in c13_slide.FORMATS:
+        return c13_slide.oracle(fmt, case)
     if fmt in ("docx", "odt"):
         doc = case["doc"]
         body = c13b.py_docx_body(doc) if fmt == "docx" else c13b.py_odt_body(doc)
@@ -1427,53 +1427,18 @@ def oracle(fmt, case):
                     v.key = "xls.duplicate-header-collision"
         return vs
     if fmt == "rtf":
-        blocks = case["blocks"]
-        truth = []
-        for b in blocks:
-            if b[0] == "t":
-                w = max(len(r) for r in b[1])
-                truth.append([[("\n".join(c)) for c in r] + [""] * (w - len(r)) for r in b[1]])
-        res = _read("rtf", c13b.rtf_doc(blocks))
-        vs = _check_tables(fmt, res, truth, case)
-        for v in vs:
-            if v.key == "rtf.tables-differ" and _rtf_adjacent(blocks):
-                v.key = "rtf.adjacent-tables-merged"
-        return vs
+        return c13_rtf.oracle(case, lambda data: _read("rtf", data), _check_tables)
     raise KeyError(fmt)
 
 
-def _rtf_adjacent(blocks):
-    """two tables with less than ~100 characters of text between them"""
-    last_t, gap = False, 0
-    for b in blocks:
-        if b[0] == "t":
-            if last_t and gap <= 110:
-                return True
-            last_t, gap = True, 0
-        else:
-            gap += len(b[1]) + 12
-    return False
-
-
 def gen_rtf_case(rng, adjacent=False):
-    long_p = "between the tables there is a paragraph that is clearly longer than one hundred and twenty characters, so that the row grouping heuristic sees a break here."
-    blocks = [["p", "before"]]
-    for i in range(rng.randint(1, 3)):
-        r, c = rng.randint(1, 4), rng.randint(1, 4)
-        rows = []
-        for _ in range(r):
-            n = c if rng.random() < 0.8 else rng.randint(1, 4)
-            rows.append([[rng.choice(["a", "b c", "Zeta", "ä", "1", "2.5", "x-y"]) for _ in range(rng.choice([1, 1, 1, 2]))] if rng.random() < 0.9 else [""]
-                         for _ in range(n)])
-        if all(all(p == "" for p in c) for c in rows[0]):
-            rows[0][0] = ["a"]
-        blocks.append(["t", rows])
-        blocks.append(["p", "x" if adjacent else long_p])
-    return {"blocks": blocks}
+    return c13_rtf.gen_rtf_case(rng, adjacent=adjacent)
 
 
 def gen_case(rng, fmt, known_shapes=False):
     """a generated input for `oracle`; known_shapes=False avoids the shapes of the open known findings"""
+    if fmt in c13_slide.FORMATS:
+        return c13_slide.gen_case(rng, fmt, known_shapes)
     if fmt == "docx":
         return {"doc": gen_doc(rng, gen_docx_para)}
     if fmt == "odt":
@@ -1508,12 +1473,14 @@ def gen_case(rng, fmt, known_shapes=False):
     raise KeyError(fmt)
 
 
-FORMATS = ["docx", "pptx", "odt", "odp", "html", "epub", "xlsx", "ods", "xls", "rtf"]
+FORMATS = ["docx", "pptx", "odt", "odp", "html", "epub", "xlsx", "ods", "xls", "rtf"] + c13_slide.FORMATS
 
 
 def _case_from_broken(b):
     c = b.case or {}
     fmt = c.get("fmt")
+    if fmt in c13_slide.FORMATS:
+        return c13_slide.case_from_broken(c)
     if fmt in ("docx", "odt") and c.get("doc") is not None:
         return fmt, {"doc": c["doc"]}
     if fmt in ("html", "epub") and c.get("doc") is not None:
@@ -1528,6 +1495,8 @@ def _case_from_broken(b):
         return fmt, {"grid": c["grid"]}
     if fmt == "rtf" and "blocks" in c:
         return fmt, {"blocks": c["blocks"]}
+    if fmt == "rtf" and "raw" in c:
+        return fmt, {k: c[k] for k in ("raw", "truth", "mechanism") if k in c}
     return None
 
 
@@ -1622,9 +1591,9 @@ WITNESSES = {
     "xls.duplicate-header-collision": ("xls", {"grid": [[[1, "a"], [1, "a"]], [[2, 1.0], [2, 2.0]]]}),
     "xls.header-only-sheet-empty": ("xls", {"grid": [[[1, "a"], [1, "b"]]]}),
     "ods.empty-repeat-shifts-cells": ("ods", {"sheets": [[[1, [[1, "a"], [150, None], [1, "b"]]], [120, [[152, None]]], [1, [[1, "c"]]]]]}),
-    "rtf.adjacent-tables-merged": ("rtf", {"blocks": [["p", "before"], ["t", [[["a"], ["b"]], [["c"], ["d"]]]], ["p", "between"],
-                                                        ["t", [[["e"]], [["f"]]]], ["p", "after"]]}),
 }
+WITNESSES.update(c13_rtf.WITNESSES)
+WITNESSES.update(c13_slide.WITNESSES)
 
 
 def known_witnesses(ctx):
